@@ -874,12 +874,12 @@ def cases(draw, p):
     # ended) - hundreds to a few thousand commands on one filter object
     # a long print now and then: the ops, a long stretch of distinct moves (free space or inside a region), then the same ops
     # again (many of them render to the very commands of the first pass) - hundreds to thousands of commands on one filter
-    reps = draw(st.sampled_from([0] * int(p.get("long", 40)) + [1])) if p.get("long", 40) else 0
+    reps = draw(st.sampled_from([0] * int(p.get("long", 25)) + [1])) if p.get("long", 25) else 0
     for o in abstract:
         rnd.op(o)
     if reps:
         for _ in range(draw(st.integers(1, 2))):
-            rnd.raster(draw(st.sampled_from([150, 300, 600, 1300])), draw(st.sampled_from(["out", "out", "in"])), draw(st.booleans()))
+            rnd.raster(draw(st.sampled_from([150, 600, 1300, 1300])), draw(st.sampled_from(["out", "out", "in"])), draw(st.booleans()))
             for o in abstract:
                 rnd.op(o)
     via = draw(st.sampled_from(["direct", "direct", "plugin"])) if p.get("via_plugin", True) else "direct"
